@@ -6,6 +6,7 @@ import (
 	"sort"
 	"strings"
 	"testing"
+	"time"
 
 	"github.com/zmap/zlint/v3/lint"
 	"pgregory.net/rapid"
@@ -111,6 +112,21 @@ func TestC06(t *testing.T) {
 			}
 		}
 	}
+	// boundary objects: every dated lint's home objects re-dated to its boundaries +-1 s
+	forEachBoundaryCase(rec, stats.Scale(2, 8), []gen.TimeForm{gen.UTCZ}, func(k int, l regLint, o gen.Obj, at time.Time, fi int, f gen.TimeForm) {
+		c, ok := redatedCase(o, at, f)
+		if !ok {
+			return
+		}
+		c.Note = "boundary of " + l.Name
+		rec.Eval()
+		rec.Class("boundary")
+		if sig, msg := judgeC06(rec, c); msg != "" {
+			if rec.Report("c06", sig, msg, c) {
+				t.Fatalf("c06 boundary %s on %s at %s: %s: %s", l.Name, o.Name, at.UTC().Format(time.RFC3339), sig, msg)
+			}
+		}
+	})
 	// directed: home objects of each lint x single leaf edits inside extensions and names
 	hm := homeObjects()
 	reg := registryLints(lint.GlobalRegistry())
